@@ -18,7 +18,7 @@ RULE = ('(seq) the real TransferCoordinator/TransferFuture driven through EVERY 
         'line-level yield injection in futures.py: per-operation results and the final state must be explained by some interleaving '
         'of the reference model (cancel = mark + announce), callbacks exactly once, writes to status/exception/result only under the '
         'coordinator\'s own lock (lockset monitor); (e2e) the same consistency assertions evaluated inside on_done and after result() '
-        'of real transfers with faults/cancels, with the lockset coordinator substituted into the manager; non-trivial = a comparison '
+        'of real transfers with faults/cancels, with the lockset coordinator substituted into the manager; thread cases also use the operations cancel-with-unbuildable-exception, obs (what a user sees) and final_task, and ordered one-preemption line windows over every statement of the coordinator; non-trivial = a comparison '
         'was made on a state with >=1 completed operation; distinct = distinct (reference state, op) pairs / thread splits / shapes')
 ASSUMPTIONS = ['non-done -> non-done transitions (e.g. running -> queued) are not demanded to be rejected: the statement only forbids '
                'leaving a done state']
